@@ -17,7 +17,12 @@ import (
 
 // c17Compile builds the k-th program of the seed from scratch, compiles it and
 // returns a digest of (asm bytes, stub bytes, allocation) or the error class.
+// c17ISA holds, per compiled function of the last c17Compile call, the distinct ISA names of its
+// instructions in first-occurrence order and the ISA list the pass computed.
+var c17ISA [][2][]string
+
 func c17Compile(db *formsDB, seed uint64, k int) (digest string, ok bool) {
+	c17ISA = nil
 	r := newRng(seed*1000003 + uint64(k))
 	cfg := genCfg{minInstr: 3, maxInstr: 10 + r.intn(40), nGP: 2 + r.intn(12), nVec: r.intn(10), nK: r.intn(5),
 		physPct: r.intn(30), branchPct: r.intn(20), randomFormPct: 40, strict: true, pressureTail: r.chance(1, 2)}
@@ -49,6 +54,17 @@ func c17Compile(db *formsDB, seed uint64, k int) (digest string, ok bool) {
 	h.Write(stub)
 	h.Write([]byte{0})
 	for _, f := range file.Functions() {
+		var names []string
+		seen := map[string]bool{}
+		for _, i := range f.Instructions() {
+			for _, n := range i.ISA {
+				if !seen[n] {
+					seen[n] = true
+					names = append(names, n)
+				}
+			}
+		}
+		c17ISA = append(c17ISA, [2][]string{names, f.ISA})
 		ids := make([]int, 0, len(f.Allocation))
 		for v := range f.Allocation {
 			ids = append(ids, int(v))
@@ -119,6 +135,12 @@ func init() {
 				stats["compiled"]++
 			}
 			o.emit(fmt.Sprintf("accept-det %d %d %s", k, len(ds), strings.Join(ds, " ")), "ok")
+			for _, p := range c17ISA {
+				req := append([]string{"isa", itoa(len(p[0]))}, p[0]...)
+				resp := append([]string{itoa(len(p[1]))}, p[1]...)
+				o.emit(strings.Join(req, " "), strings.Join(resp, " "))
+				stats["isa_lists"]++
+			}
 		}
 		stats["runs_per_program"] = *runs + *procs
 		return writeJSON(*f.stats, stats)
